@@ -175,8 +175,39 @@ fn request() -> Request {
     Request::new((mk(0), None), (mk(1), None), (mk(2), None), Context::empty(), None::<&cedar_policy_core::ast::RequestSchemaAllPass>, Extensions::all_available()).expect("request")
 }
 
-/// the statement evaluated on the implementation's store against the oracle
-fn check_store(store: &Entities, sp: &Spec, n: usize, desc: &str, out: &mut Out, r: &mut Rng) {
+/// `what` of the failures caused by stale ancestors left behind by an upsert batch that names a uid more than once
+pub const STALE_REPEATED: &str = "stale ancestor after upsert batch repeating a uid";
+
+/// some uid named more than once in the batch of an upsert
+fn repeated_uid(o: &Op) -> Option<usize> {
+    if let Op::Upsert(_, v) = o {
+        for (i, e) in v.iter().enumerate() { if v[..i].iter().any(|d| d.u == e.u) { return Some(e.u); } }
+    }
+    None
+}
+
+/// the statement evaluated on the implementation's store against the oracle. `rep`: the store is the result
+/// of an upsert batch repeating a uid; if then the only deviation is *surplus* ancestors (parent graph as in
+/// the spec, no reachable ancestor missing), every failure is reported under `STALE_REPEATED` (with the
+/// original check in the detail) and `true` is returned (the history is no longer followed by the oracle).
+fn check_store(store: &Entities, sp: &Spec, n: usize, desc: &str, out: &mut Out, r: &mut Rng, rep: bool) -> bool {
+    let mut stale_only = false;
+    if rep {
+        let mut surplus = false;
+        let mut missing = false;
+        for e in 0..n {
+            if let cedar_policy_core::entities::Dereference::Data(x) = store.entity(&mk(e)) {
+                let reach = sp.reach(e);
+                for i in 0..n {
+                    match (x.is_descendant_of(&mk(i)), reach.contains(&i)) { (true, false) => surplus = true, (false, true) => missing = true, _ => {} }
+                }
+            }
+        }
+        stale_only = surplus && !missing;
+    }
+    let fail = |out: &mut Out, what: &str, detail: &str| {
+        if stale_only && what.ends_with("differs from parent reachability") { out.propfail(STALE_REPEATED, desc, &format!("[{what}] {detail}")); } else { out.propfail(what, desc, detail); }
+    };
     let ev = Evaluator::new(request(), store, Extensions::all_available());
     let api: cedar_policy::Entities = store.clone().into();
     // records and their direct parents are the spec graph
@@ -191,7 +222,7 @@ fn check_store(store: &Entities, sp: &Spec, n: usize, desc: &str, out: &mut Out,
     let want: BTreeMap<usize, BTreeSet<usize>> = sp.recs.iter().map(|(k, v)| (*k, v.1.clone())).collect();
     if have != want || store.len() != want.len() {
         out.propfail("direct-parent graph differs from the spec operations", desc, &format!("impl {have:?} spec {want:?}"));
-        return;
+        return false;
     }
     for e in 0..n {
         let reach = sp.reach(e);
@@ -200,34 +231,34 @@ fn check_store(store: &Entities, sp: &Spec, n: usize, desc: &str, out: &mut Out,
             let anc: BTreeSet<EntityUID> = x.ancestors().cloned().collect();
             let exp: BTreeSet<EntityUID> = reach.iter().map(|&i| mk(i)).collect();
             if anc != exp {
-                out.propfail("ancestor listing differs from parent reachability", desc, &format!("entity {} ancestors {:?} reachable {:?}", POOL[e].1, anc.iter().map(|u| u.to_string()).collect::<Vec<_>>(), reach.iter().map(|&i| POOL[i].1).collect::<Vec<_>>()));
+                fail(out, "ancestor listing differs from parent reachability", &format!("entity {} ancestors {:?} reachable {:?}", POOL[e].1, anc.iter().map(|u| u.to_string()).collect::<Vec<_>>(), reach.iter().map(|&i| POOL[i].1).collect::<Vec<_>>()));
             }
-            if x.parents().any(|p| x.is_indirect_descendant_of(p)) { out.propfail("parents and indirect ancestors overlap", desc, POOL[e].1); }
+            if x.parents().any(|p| x.is_indirect_descendant_of(p)) { fail(out, "parents and indirect ancestors overlap", POOL[e].1); }
             if let Some(it) = api.ancestors(&mk(e).into()) {
                 let a2: BTreeSet<String> = it.map(|u| u.to_string()).collect();
                 let e2: BTreeSet<String> = exp.iter().map(|u| u.to_string()).collect();
-                if a2 != e2 { out.propfail("cedar_policy::Entities::ancestors differs from parent reachability", desc, POOL[e].1); }
-            } else { out.propfail("cedar_policy::Entities::ancestors is None for a present entity", desc, POOL[e].1); }
+                if a2 != e2 { fail(out, "cedar_policy::Entities::ancestors differs from parent reachability", POOL[e].1); }
+            } else { fail(out, "cedar_policy::Entities::ancestors is None for a present entity", POOL[e].1); }
         }
         for a in 0..n {
             let want_in = e == a || reach.contains(&a);
             if let Some(x) = ent {
                 if x.is_descendant_of(&mk(a)) != reach.contains(&a) {
-                    out.propfail("is_descendant_of differs from parent reachability", desc, &format!("{} -> {}", POOL[e].1, POOL[a].1));
+                    fail(out, "is_descendant_of differs from parent reachability", &format!("{} -> {}", POOL[e].1, POOL[a].1));
                 }
             }
             let got = catch_unwind(AssertUnwindSafe(|| ev.interpret(&Expr::is_in(Expr::val(mk(e)), Expr::val(mk(a))), &HashMap::new())));
             match got {
                 Ok(Ok(v)) => {
-                    if v != Value::from(want_in) { out.propfail("`e in a` differs from parent reachability", desc, &format!("{} in {} = {v} expected {want_in}", POOL[e].1, POOL[a].1)); }
+                    if v != Value::from(want_in) { fail(out, "`e in a` differs from parent reachability", &format!("{} in {} = {v} expected {want_in}", POOL[e].1, POOL[a].1)); }
                 }
-                Ok(Err(er)) => out.propfail("`e in a` errors", desc, &format!("{} in {}: {er}", POOL[e].1, POOL[a].1)),
-                Err(_) => out.propfail("panic evaluating `e in a`", desc, &format!("{} in {}", POOL[e].1, POOL[a].1)),
+                Ok(Err(er)) => fail(out, "`e in a` errors", &format!("{} in {}: {er}", POOL[e].1, POOL[a].1)),
+                Err(_) => fail(out, "panic evaluating `e in a`", &format!("{} in {}", POOL[e].1, POOL[a].1)),
             }
             out.count("pairs_checked");
             let anc_of = api.is_ancestor_of(&mk(a).into(), &mk(e).into());
             if e != a {
-                if anc_of != reach.contains(&a) { out.propfail("is_ancestor_of differs from parent reachability", desc, &format!("is_ancestor_of({}, {}) = {anc_of}", POOL[a].1, POOL[e].1)); }
+                if anc_of != reach.contains(&a) { fail(out, "is_ancestor_of differs from parent reachability", &format!("is_ancestor_of({}, {}) = {anc_of}", POOL[a].1, POOL[e].1)); }
             } else if !anc_of {
                 // documented as "same semantics as `b in a`", but false for a present entity and itself
                 out.count("is_ancestor_of_reflexive_false_for_present_entity");
@@ -244,10 +275,11 @@ fn check_store(store: &Entities, sp: &Spec, n: usize, desc: &str, out: &mut Out,
         let resp = Authorizer::new().is_authorized(rq, &ps, store);
         let want_in = e == a || sp.reach(e).contains(&a);
         if (resp.decision == Decision::Allow) != want_in {
-            out.propfail("`principal in X` through is_authorized differs from parent reachability", desc, &format!("{} in {}", POOL[e].1, POOL[a].1));
+            fail(out, "`principal in X` through is_authorized differs from parent reachability", &format!("{} in {}", POOL[e].1, POOL[a].1));
         }
         out.count("authorizer_pairs_checked");
     }
+    stale_only
 }
 
 /// out-edge relation of the implementation's store is transitively closed and has no self-edge
@@ -284,11 +316,20 @@ pub fn run_history(ops: &[Op], n: usize, tag: &str, out: &mut Out, r: &mut Rng) 
             Ok(s) => { replies.push(format!("(ok {})", state_sx(s))); out.count("op_ok"); }
             Err(e) => { replies.push(format!("(err {})", err_kind(e))); out.count(&format!("op_err_{}", err_kind(e))); }
         }
+        let mut stale = false;
         if op_pure {
             let base = if is_from { Spec::default() } else { sp.clone() };
             let exp = spec_apply(&base, o);
             match (&res, &exp) {
-                (Ok(s), Ok(nsp)) => { check_store(s, nsp, n, &format!("{desc} [after op #{k}]"), out, r); out.count("stores_checked_against_oracle"); }
+                (Ok(s), Ok(nsp)) => {
+                    let d = match repeated_uid(o) {
+                        Some(u) => { out.count("upsert_batch_repeating_a_uid_checked"); format!("{desc} [after op #{k}: {} repeats uid {}]", op_desc(o), POOL[u].1) }
+                        None => format!("{desc} [after op #{k}]"),
+                    };
+                    stale = check_store(s, nsp, n, &d, out, r, repeated_uid(o).is_some());
+                    if stale { out.count("stale_after_upsert_batch_repeating_a_uid"); }
+                    out.count("stores_checked_against_oracle");
+                }
                 (Err(e), Err(kind)) => {
                     if err_kind(e) != *kind { out.propfail("wrong error kind", &desc, &format!("op #{k}: impl {} expected {kind}", err_kind(e))); }
                     if *kind == "cycle" { out.count("cyclic_result_rejected"); }
@@ -296,7 +337,8 @@ pub fn run_history(ops: &[Op], n: usize, tag: &str, out: &mut Out, r: &mut Rng) 
                 (Ok(_), Err(kind)) => out.propfail("operation accepted although the result is cyclic / a conflicting duplicate", &desc, &format!("op #{k}: expected error {kind}")),
                 (Err(e), Ok(_)) => out.propfail("operation rejected although the result is acyclic and has no conflicting duplicate", &desc, &format!("op #{k}: error {}", err_kind(e))),
             }
-            if let (Ok(_), Ok(nsp)) = (&res, exp) { sp = nsp; pure = true; }
+            // after the known stale-ancestor shape the store no longer satisfies the property: stop following it
+            if let (Ok(_), Ok(nsp)) = (&res, exp) { sp = nsp; pure = !stale; }
         } else if res.is_ok() {
             pure = false;
         }
@@ -417,7 +459,7 @@ fn gen_scripted(r: &mut Rng) -> (Vec<Op>, usize) {
     let n = 6 + r.below(3);
     let lab = shuffle(r, n);
     let e = |u: usize, ps: &[usize]| Ent { u: lab[u], tag: 0, par: ps.iter().map(|&p| lab[p]).collect(), ind: BTreeSet::new() };
-    let ops = match r.below(6) {
+    let ops = match r.below(7) {
         0 => {
             // x -> a -> t and x -> b -> t ; remove / replace a : t must survive through b, a's private ancestor must go
             let base = vec![e(0, &[1, 2]), e(1, &[3, 4]), e(2, &[3]), e(3, &[5]), e(4, &[])];
@@ -448,6 +490,33 @@ fn gen_scripted(r: &mut Rng) -> (Vec<Op>, usize) {
             // replace a middle node so that descendants lose one path and gain another; then remove the new path
             let base = vec![e(0, &[1]), e(1, &[2]), e(2, &[3]), e(3, &[]), e(4, &[5]), e(5, &[])];
             vec![Op::From(Mode::Compute, base), Op::Upsert(Mode::Compute, vec![e(1, &[4])]), Op::Remove(Mode::Compute, vec![lab[4]]), Op::Upsert(Mode::Compute, vec![e(1, &[2, 5])])]
+        }
+        5 => {
+            // an upsert batch naming one uid more than once (the last record wins), mixed with overwrites of its
+            // descendants: the first overwrite drops an ancestor from the descendants, the second finds them no
+            // longer marked as descendants
+            if r.chance(40) {
+                // x -> w -> u, w -> v -> y ; [u<y, u<, w<]
+                let base = vec![e(0, &[1]), e(1, &[2, 3]), e(2, &[]), e(3, &[4]), e(4, &[])];
+                vec![Op::From(Mode::Compute, base), Op::Upsert(Mode::Compute, vec![e(2, &[4]), e(2, &[]), e(1, &[])])]
+            } else {
+                // random DAG along 0..m (edges to larger indices only); u two or three times with different
+                // parents, interleaved with and followed by overwrites of other nodes
+                let m = 5 + r.below(2);
+                let mut base = Vec::new();
+                for i in 0..m { let ps: Vec<usize> = (i + 1..m).filter(|_| r.chance(45)).collect(); base.push(e(i, &ps)); }
+                let u = 1 + r.below(m - 2);
+                let mut b = Vec::new();
+                for _ in 0..2 + r.below(2) {
+                    let ps: Vec<usize> = (u + 1..m).filter(|_| r.chance(40)).collect();
+                    b.push(e(u, &ps));
+                    if r.chance(60) { let w = r.below(m - 1); let ps: Vec<usize> = (w + 1..m).filter(|_| r.chance(35)).collect(); b.push(e(w, &ps)); }
+                }
+                let w = r.below(u);
+                let ps: Vec<usize> = (w + 1..m).filter(|_| r.chance(25)).collect();
+                b.push(e(w, &ps));
+                vec![Op::From(Mode::Compute, base), Op::Upsert(Mode::Compute, b)]
+            }
         }
         _ => {
             // several nodes of one chain replaced / removed in one batch, in both orders
